@@ -4,6 +4,9 @@ use crate::{Actor, DynResult};
 
 use super::{ActorHandle, JoinFuture, Spawner};
 
+#[cfg(feature = "verif")]
+use crate::verif::tokio_shim as tokio;
+
 #[derive(Copy, Clone, Debug, Default)]
 pub struct TokioSpawner;
 
